@@ -13,7 +13,9 @@
 (*   refstart/refget a live refresh (TrafficInit) running as a goroutine of its *)
 (*                   own; it parks before each read of a persisted total        *)
 (*   restart         crash + New + Init on the surviving store (pre/post)      *)
-(*   reconnect / credit / pay     sequential calls after the restart           *)
+(*   reconnect / pay / credit / pay   sequential calls after the restart: the   *)
+(*                   peer presents the cheque it holds; a payment with nothing  *)
+(*                   new consumed; new traffic; the first cheque for it         *)
 (*                                                                            *)
 (* Verdict bookkeeping (independent of the implementation-shaped model):       *)
 (*   ack[k][p]  = sum of the updates whose call had returned without error,    *)
@@ -130,6 +132,8 @@ Notes(e, s, post) ==
               /\ Tup(e.post.lastSent) = post.stSent)
   ELSE IF e.op = "pay" THEN
        Clause("first_cheque_after_restart_as_modelled", Tup(e.st.lastSent) = post.stSent)
+  ELSE IF e.op = "reconnect" THEN
+       Clause("last_sent_cheque_after_handshake_covers_what_the_peer_holds", e.err = "" => e.st.lastSent[e.p] >= held[e.p])
   ELSE <<>>
 
 \* ------------------------------------------------------------------ monitor
@@ -137,9 +141,11 @@ TInit == /\ l = 1 /\ S = InitS /\ res = [op |-> "init"] /\ nops = 0 /\ bad = <<>
          /\ ack = InitS.ack /\ ackSent = Zero /\ held = Zero
          /\ infl = [t \in Threads |-> NoCall] /\ sync = [p \in Peers |-> TRUE]
 
+\* held0: the payouts delivered by payments of the sequential prefix (they returned without error)
 StartState(e) ==
   [InitS EXCEPT !.tot["owed"] = Tup(e.st.owed), !.st["owed"] = Tup(e.st.owed),
                 !.tot["served"] = Tup(e.st.served), !.st["served"] = Tup(e.st.served),
+                !.sent = Tup(e.st.lastSent), !.stSent = Tup(e.st.lastSent), !.held = Tup(e.held0),
                 !.nbal = e.st.ti.bal, !.chBal = e.st.ti.bal]
 
 TStep ==
@@ -162,8 +168,8 @@ TStep ==
                   ELSE IF e.op = "restart" /\ cs # <<>>          \* resynchronise
                   THEN [k \in Kinds |-> IF k = "owed" THEN Tup(e.post.owed) ELSE Tup(e.post.served)]
                   ELSE AckAfter(e)
-        /\ ackSent' = IF start THEN Zero ELSE AckSentAfter(e)
-        /\ held' = IF start THEN Zero ELSE HeldAfter(e)
+        /\ ackSent' = IF start THEN Tup(e.held0) ELSE AckSentAfter(e)
+        /\ held' = IF start THEN Tup(e.held0) ELSE HeldAfter(e)
         /\ infl' = IF start \/ e.op = "restart" THEN [t \in Threads |-> NoCall] ELSE InflAfter(e)
         /\ sync' = IF start THEN [p \in Peers |-> TRUE]
                    ELSE IF e.op = "restart" THEN [p \in Peers |-> FALSE]
